@@ -126,7 +126,7 @@ fn gen_spec(rng: &mut Rng, fam: usize, res: &str, id: String, invalid: bool) -> 
                 id,
                 metric,
                 threshold: match metric {
-                    0 => *rng.pick(&[0.5f64, 0.8]),
+                    0 => *rng.pick(&[0.5f64, 0.8, 0.3]),
                     4 => *rng.pick(&[50.0f64, 80.0]),
                     _ => *rng.pick(&[1000.0f64, 2000.0]),
                 },
@@ -188,6 +188,15 @@ impl Prop for C10 {
                 let mut twin = rng.pick(&pool).clone();
                 twin.set_id(id);
                 pool.push(twin);
+            } else if !pool.is_empty() && rng.chance(1, 8) {
+                // a different rule that is as close as a rule can be: threshold one representable value higher
+                let mut near = rng.pick(&pool).clone();
+                near.set_id(id.clone());
+                if near.nudge_threshold() {
+                    pool.push(near);
+                } else {
+                    pool.push(gen_spec(rng, fam, r, id, false));
+                }
             } else if !pool.is_empty() && rng.chance(1, 6) {
                 // an edited rule that keeps its id: same id and resource, other content
                 let old = rng.pick(&pool).clone();
